@@ -254,7 +254,7 @@ func c10Structured(r *fw.Rec, kind string, blk, nblk int) {
 			for _, m := range mantissas(52, rng, 1) {
 				for _, s := range []uint64{0, 1} {
 					hi := s<<63 | uint64(e)<<52 | m
-					for _, lo := range []uint64{0, 1 << 63, rng.Uint64(), math.Float64bits(math.Float64frombits(hi&^(0x7FF<<52)|uint64(max(int(e)-60, 0))<<52))} {
+					for _, lo := range []uint64{0, 1 << 63, rng.Uint64(), math.Float64bits(math.Float64frombits(hi&^(0x7FF<<52) | uint64(max(int(e)-60, 0))<<52))} {
 						add(fmt.Sprintf("0xM%016X%016X", hi, lo), "pair:"+f64Class(hi))
 					}
 				}
